@@ -1,5 +1,6 @@
 (* C09 — Attribute values resolve by MJML precedence, independent of source. *)
 From Coq Require Import List String Bool NArith.
+From GV Require Attr.Store.
 From GV Require Import Attr.Resolve Facts.Accessors Facts.KnownBad.
 Import ListNotations.
 Open Scope string_scope.
@@ -60,6 +61,32 @@ Example C09_nonvacuous :
   acc norm Attr.Resolve.NoGlobal s "padding" = "".
 Proof. vm_compute. repeat split; reflexivity. Qed.
 
+(* ---- the attribute store: what the sources of the resolver are, as a function of the head ---- *)
+(* every look-up yields the last definition in document order, over all <mj-attributes> blocks *)
+Theorem C09_tag_default_is_last_definition : forall es t a,
+  Attr.Store.tag_get (Attr.Store.process es) t a = Attr.Store.last_assoc (flat_map (Attr.Store.defs_tag t) es) a.
+Proof. exact Attr.Store.tag_lookup_is_last_definition. Qed.
+Theorem C09_all_default_is_last_definition : forall es a,
+  Attr.Store.all_get (Attr.Store.process es) a = Attr.Store.last_assoc (flat_map Attr.Store.defs_all es) a.
+Proof. exact Attr.Store.all_lookup_is_last_definition. Qed.
+Theorem C09_class_definition_is_last_definition : forall es c a,
+  Attr.Store.class_get (Attr.Store.process es) c a = Attr.Store.last_assoc (flat_map (Attr.Store.defs_class c) es) a.
+Proof. exact Attr.Store.class_lookup_is_last_definition. Qed.
+(* a later entry for the same tag leaves what it does not mention alone *)
+Theorem C09_later_entry_keeps_unmentioned : forall es t x a, Attr.Store.last_assoc x a = None ->
+  Attr.Store.tag_get (Attr.Store.process (es ++ [Attr.Store.ETag t x])) t a = Attr.Store.tag_get (Attr.Store.process es) t a.
+Proof. exact Attr.Store.later_entry_keeps_unmentioned. Qed.
+(* among the classes an element names, the later one wins; one that is silent keeps the earlier value *)
+Theorem C09_later_class_wins : forall s names n a v, Attr.Store.class_get s n a = Some v ->
+  Attr.Store.comp_class_attr s (names ++ [n]) a = Some v.
+Proof. exact Attr.Store.later_class_wins. Qed.
+Theorem C09_silent_class_keeps_earlier : forall s names n a, Attr.Store.class_get s n a = None ->
+  Attr.Store.comp_class_attr s (names ++ [n]) a = Attr.Store.comp_class_attr s names a.
+Proof. exact Attr.Store.silent_class_keeps_earlier. Qed.
+
 Print Assumptions C09_resolver_is_precedence.
 Print Assumptions C09_moving_sources.
 Print Assumptions C09_bypass_cells_listed.
+Print Assumptions C09_tag_default_is_last_definition.
+Print Assumptions C09_class_definition_is_last_definition.
+Print Assumptions C09_later_class_wins.
